@@ -1267,7 +1267,11 @@ class _ExprSequence(Expr):
                         HLGExpr(
                             dsk=HighLevelGraph.from_collections(
                                 opt._name, opt.__dask_graph__(), dependencies=()
-                            )
+                            ),
+                            # The expression knows its keys (and their order);
+                            # guessing them from the leaves of the graph is wrong
+                            # when the graph holds tasks nobody depends on
+                            output_keys=opt.__dask_keys__(),
                         )
                     )
         if issue_warning:
